@@ -76,10 +76,11 @@ func (p *Parser) findConvergenEntries() ([]*intfEntry, error) {
 // isValidIdentifier checks if the given string is a valid identifier.
 func isValidIdentifier(id string) bool {
 	for i, r := range id {
-		if !unicode.IsLetter(r) &&
+		if !unicode.IsLetter(r) && r != '_' &&
 			!(0 < i && unicode.IsDigit(r)) {
 			return false
 		}
 	}
-	return id != ""
+	// The blank identifier cannot be referred to.
+	return id != "" && id != "_"
 }
